@@ -399,6 +399,11 @@ func CheckC15Registry(run *harness.Run) ([]harness.Finding, map[string]interface
 		n := 40 + lrng.Intn(160)
 		var ops []cop
 		live := 0
+		// first a run of For calls for distinct positions (proposals of many views validated one after the other), nothing cancelled yet
+		for k, lead := 0, 30+lrng.Intn(50); k < lead; k++ {
+			ops = append(ops, cop{0, uint64(1 + lrng.Intn(3)), uint64(lrng.Intn(80))})
+			live++
+		}
 		for k := 0; k < n; k++ {
 			h := uint64(1 + lrng.Intn(3))
 			v := uint64(lrng.Intn(80))
